@@ -2,6 +2,7 @@
 \* stream's buffer when Ok is returned and is lost silently on a full device or a broken pipe -- must be refuted
 SPECIFICATION Spec
 CONSTANT FlushBeforeReturn = FALSE
+CONSTANT SkipWhenSame = FALSE
 CONSTANT FormatErrorSurfaces = FALSE
 INVARIANTS UnwritableIsErr OkMeansDelivered
 CHECK_DEADLOCK FALSE
